@@ -44,6 +44,7 @@ cfg("bug.removeStateHoldsLock.order", dict(seed, Bug='"removeStateHoldsLock"'), 
 cfg("bug.closeNoStatesWait", dict(one, MaxUpdates='0', Bug='"closeNoStatesWait"'), comment="seeded: user.close forgets statesWG.Wait")
 cfg("bug.doneNoRelease", dict(one, Bug='"doneNoRelease"'), comment="seeded: Session.done does not release the state")
 cfg("bug.idleNotStopped", dict(one, Bug='"idleNotStopped"', CmdKinds='{"idle"}'), comment="seeded: endIdle does not close idleCh (IDLE sender never stops)")
+cfg("bug.sendIgnoresQuit", dict(one, Bug='"sendIgnoresQuit"', CmdKinds='{}', MaxCmds='0', MaxUpdates='2', Removable='{"u1"}'), tail="INVARIANTS TypeOK", comment="seeded: updateInjector.send does not select on forwardQuitCh: expected deadlock = forwarder stuck in `updatesCh <- update` after the update loop has gone, RemoveUser / Close wait for forwardWG for ever")
 # ---- thorough
 cfg("fine2", dict(MaxCmds='3', CmdKinds='{"login", "sel", "idle", "done", "logout", "lit", "caps", "noop", "auth"}'), comment="thorough: every step separate, one session, three commands of every class")
 cfg("ctx", dict(CtxCancel='TRUE', CmdKinds='{"login", "sel", "idle"}', MaxCmds='1'), comment="thorough: intended design with a cancellable Serve context: one session, every step separate")
